@@ -278,6 +278,8 @@ pub struct Sim {
     /// count of state-changing yields executed so far (for crash-point plans)
     pub sc_count: u64,
     pub kill_at: Option<(u64, bool)>,
+    /// count yields of script processes instead of state-changing yields of redo processes
+    pub kill_scripts: bool,
     pub kill_fired: Option<String>,
     pct_change_points: Vec<u64>,
     pub wake_sets: BTreeMap<String, u64>,
@@ -368,6 +370,7 @@ impl Sim {
             preemptions: 0,
             sc_count: 0,
             kill_at: None,
+            kill_scripts: false,
             kill_fired: None,
             pct_change_points: pts,
             wake_sets: BTreeMap::new(),
@@ -1311,7 +1314,13 @@ impl Sim {
             }
             let (i, verdict) = self.choose(&en);
             // crash-point plan
-            if Sim::is_state_changing(&self.procs[i]) {
+            let counts = if self.kill_scripts {
+                self.procs[i].is_script()
+                    && self.procs[i].op.as_ref().map_or(false, |o| o.class != Class::Hello)
+            } else {
+                Sim::is_state_changing(&self.procs[i])
+            };
+            if counts {
                 if let Some((k, tree)) = self.kill_at {
                     if self.sc_count == k {
                         self.kill_at = None;
